@@ -276,6 +276,19 @@ func init() {
 	})
 }
 
+func init() {
+	props = append(props, prop{
+		ID: "C11", Title: "secrets and passwords gate the routes", Level: "exploration",
+		LevelText:  "Generated interleavings of session life-cycle events (create, login, delete) and probes on an in-process node: POST message / GET messages / DELETE session against the own, another live, a deleted, a never-existing and a malformed session id, with no, empty, wrong, truncated, extended, another live session's, a deleted session's and the correct secret; and every private path (a fixed list, whatever the current api.go/robustirc.go mention in case \"/...\" clauses, and random paths) with every method and no / wrong user / wrong password / empty / correct credentials. A request succeeds iff it carries the live target session's own secret; a refused request must leave raft's index, the output stream and the whole state untouched and reveal no message; private paths answer 401 exactly without the password.",
+		LevelNote:  "/quit, /join, /part and the raft transport are only probed without the password (they end the process, change the cluster or need a peer). Routes mounted in main() besides the two dispatchers are covered by the cluster check of C05.",
+		Technique:  "property-based testing (rapid) of the HTTP dispatchers with an authorisation oracle and a no-effect (state-diff) oracle",
+		DesignRef:  "4/C11",
+		Rule:       "case = 7-42 generated steps on up to 5 sessions; non-trivial = contains a probe with a secret that is valid for another live session, or a probe against a deleted session; labels c11:<route>/<target>/<credential> and c11:private/<auth> count histories per class; distinct = hash of the step list",
+		Assumptions: []string{"single voter raft in-process"},
+		Units:      []unit{nodeUnit("node", "^TestVerifC11$", 480, 10000)},
+	})
+}
+
 // notApplicable lists properties that are not claimed (yet), with the reason.
 var notApplicable = map[string]string{}
 
